@@ -10,6 +10,7 @@ CONSTANTS
   Rank <- RankDef
   Stream <- StreamDef
   MaxCrashes = 2
+  Repair = TRUE
   Score <- ScoreDef
   IdLess <- IdLessDef
 INVARIANT BestComplete
@@ -17,5 +18,6 @@ INVARIANT StoredComplete
 INVARIANT LogsMatchBest
 INVARIANT FinalityNotContradicting
 INVARIANT ResumeConverges
+INVARIANT ResumeConvergesAlsoF2
 PROPERTY FinMonotone
 CHECK_DEADLOCK FALSE
